@@ -24,8 +24,7 @@ impl Prop for C09 {
         "C09"
     }
     fn strategy(&self, tier: Tier) -> BoxedStrategy<C09Case> {
-        // (the DelayRetune composite is a harness block: its verdicts are not the library's)
-        let spec = prop_oneof![5 => spec_strategy().prop_filter("library block", |s| !matches!(s, BlockSpec::DelayRetuneU8 { .. })), 1 => source_sink_strategy()].boxed();
+        let spec = prop_oneof![5 => spec_strategy(), 1 => source_sink_strategy()].boxed();
         (
             dripcase_strategy(
                 spec,
